@@ -159,6 +159,40 @@ func Corpus() map[string][]client.Object {
 		p.HTTPRoute("team-a", "route-a", 1, pr("http"), []string{"foo.example.com", "cafe.example.com"},
 			p.HTTPRule([]gatewayv1.HTTPRouteMatch{p.PathMatch("PathPrefix", "/coffee")}, p.Backend{Ref: "svc1", Port: 80, Weight: 1})),
 		csp)
+
+	// 9. clean: four policies of one kind on one target with interleaved conflicts (A-C on body.maxSize, B-D on
+	//    keepAlive.requests; A<B<C<D): C and D lose, D must not hide behind the already-conflicted C. Same for
+	//    UpstreamSettingsPolicies on svc0 (zoneSize / keepAlive.connections).
+	inter := append(base(http80),
+		p.HTTPRoute("default", "r", 2, pr(""), nil, p.HTTPRule([]gatewayv1.HTTPRouteMatch{p.PathMatch("PathPrefix", "/")},
+			p.Backend{Ref: "svc0", Port: 80, Weight: 1})))
+	for i, nm := range []string{"a", "b", "c", "d", "e"} {
+		c := &ngfAPI.ClientSettingsPolicy{ObjectMeta: p.Meta("default", "csp-"+nm, 1+i)}
+		c.Spec.TargetRef = v1alpha2.LocalPolicyTargetReference{Group: "gateway.networking.k8s.io", Kind: "Gateway", Name: "gw"}
+		switch i % 2 {
+		case 0:
+			c.Spec.Body = &ngfAPI.ClientBody{MaxSize: ptr(ngfAPI.Size(fmt.Sprintf("%dm", 10+i)))}
+		default:
+			c.Spec.KeepAlive = &ngfAPI.ClientKeepAlive{Requests: ptr(int32(100 + i))}
+		}
+		inter = append(inter, c)
+	}
+	inter = append(inter, usp("u-a", 1, true, false, "svc0"), usp("u-b", 2, false, true, "svc0"),
+		usp("u-c", 3, true, false, "svc0"), usp("u-d", 4, false, true, "svc0"))
+	out["09-clean-interleaved-policies"] = inter
+
+	// 10. clean: two routes with eight equal-priority match rules each on one host and path (stability beyond
+	//     insertion-sort sizes: Go's sorts are only accidentally stable up to 12 elements)
+	mk := func(nm string) *gatewayv1.HTTPRoute {
+		var many []gatewayv1.HTTPRouteRule
+		for j := 0; j < 8; j++ {
+			m := p.PathMatch("PathPrefix", "/many")
+			m.Headers = []gatewayv1.HTTPHeaderMatch{{Type: ptr(gatewayv1.HeaderMatchExact), Name: "x-variant", Value: fmt.Sprintf("%s-%d", nm, j)}}
+			many = append(many, p.HTTPRule([]gatewayv1.HTTPRouteMatch{m}, p.Backend{Ref: fmt.Sprintf("svc%d", j%3), Port: 80, Weight: 1}))
+		}
+		return p.HTTPRoute("default", nm, 2, pr(""), nil, many...)
+	}
+	out["10-clean-many-equal-rules"] = append(base(http80), mk("many-a"), mk("many-b"))
 	return out
 }
 
